@@ -61,3 +61,13 @@ def classify(c, r):
         src = "dx" + t[1].split(":")[0]
         return f"X {src} to9={'y' if not r.startswith('d9=-') else 'n'} to10={'y' if ' d10=-' not in r else 'n'}"
     return f"{kind} {r.split(' ')[0].split('=')[0]}"
+
+
+def equal(a, b):
+    """C09 speaks about the headers that parse. Which error a header gets that is invalid in two places at once
+    (pixel-format size and DX10 extension) is not part of it: two `err:` results with the same `raw=` outcome are equal
+    whatever the variant; everything else is compared exactly."""
+    if a == b:
+        return True
+    ta, tb = a.split(" "), b.split(" ")
+    return len(ta) == len(tb) and len(ta) >= 1 and ta[0].startswith("err:") and tb[0].startswith("err:") and ta[1:] == tb[1:]
